@@ -424,6 +424,8 @@ def _(c):
     the reference orbit is expressed in, with that frame's orientation and the orbit itself as offset -- so the stored offset is always expressed relative to the node
     it is linked to; the frame's orientation is the orbit frame's when none is asked, a LocalOrbitalOrientation(name, ref, QSW|TNW, parent) otherwise (any case), and
     any other orientation is refused before anything is created"""
+    if not c.symbolic:
+        return  # recorders replace the constructors: nothing to replay on real objects here (C20.register does, bounded)
     calls = []
 
     class Rec:
